@@ -22,6 +22,18 @@ Definition zll_eqb := list_eqb (list_eqb Z.eqb).
 
 Definition r_quota (n q : Z) (impl : result (list Z)) : bool :=
   result_eqb (list_eqb Z.eqb) (create_quotas n q) impl.
+(* M_quota: the property's own words judged on what the implementation returned: n shares summing to the requested
+   total, each the floor quotient or one more, larger shares first *)
+Fixpoint nonincreasing (l : list Z) : bool :=
+  match l with a :: ((b :: _) as t) => (b <=? a) && nonincreasing t | _ => true end.
+Definition m_quota (n q : Z) (impl : result (list Z)) : bool :=
+  if (0 <? n) && (0 <=? q) then
+    match impl with
+    | Ok l => (Z.of_nat (length l) =? n) && (sumZ l =? q) &&
+              forallb (fun x => (x =? q / n) || (x =? q / n + 1)) l && nonincreasing l
+    | Crash _ => false
+    end
+  else true.
 Definition r_projlec (n2 n3 : Z) (impl : result (list Z)) : bool :=
   result_eqb (list_eqb Z.eqb) (create_project_lecturers n2 n3) impl.
 Definition r_stlec (prefs : list (list Z)) (plec : list Z) (n3 : Z) (impl : result (list (list Z))) : bool :=
